@@ -258,7 +258,10 @@ def shard_merge_single(st, wd):
     gives the same outcome whether the document is a file, is '-', or simply
     waits on standard input."""
     for text in ("a: 1\nl: [1, 2]\n", '{"b": 2, "c": [1]}\n', "- 1\n- x\n",
-                 "---\na: 1\n---\nb: 2\n"):
+                 "---\na: 1\n---\nb: 2\n",
+                 # sources without any node (no status is demanded of these,
+                 # only one outcome however the source is delivered)
+                 "", "# only a comment\n", "---\n", "--- ~\n"):
         fname = os.path.join(wd, "single.yaml")
         cli.write(fname, text)
         for extra in ([], ["--document-format=json"]):
@@ -280,7 +283,8 @@ def shard_merge_single(st, wd):
                 results[delivery] = (res.code, res.out)
             if len(set(map(repr, results.values()))) != 1 or \
                     results["file"] == "traceback" or \
-                    results["file"][0] != 0:
+                    (results["file"][0] != 0 and text[:1] not in ("", "#")
+                     and not text.startswith("---\n") and text != "--- ~\n"):
                 st.fail("yaml-merge|single-document|delivery", {
                     "tool": "yaml-merge", "lhs": text, "argv": extra,
                     "single": True}, "one outcome, exit 0",
